@@ -217,9 +217,22 @@ func (s *Log) Nice(o TickOptions) {
 		return
 	}
 	firstN, lastN, base := s.spacingAtLevel(level, true)
-	s.Min = math.Pow(base, firstN)
-	s.Max = math.Pow(base, lastN)
+	if math.IsInf(base, 0) {
+		// The only levels with few enough ticks overflow
+		// float64, so there are no nice bounds.
+		return
+	}
+	// Move each bound outwards only, and only to a positive finite
+	// value.
+	_, emin, emax := s.ebounds()
+	if min := math.Pow(base, firstN); 0 < min && min <= emin {
+		emin = min
+	}
+	if max := math.Pow(base, lastN); emax <= max && !math.IsInf(max, 0) {
+		emax = max
+	}
+	s.Min, s.Max = emin, emax
 	if neg {
-		s.Min, s.Max = -s.Max, -s.Min
+		s.Min, s.Max = -emax, -emin
 	}
 }
